@@ -158,6 +158,35 @@ def replay(arg):
                         mism.append(("selection-area", "get(area=%d) holds %d row pairs, specification %d" % (k_, got_, cnt), rep))
     except Exception as ex:
         mism.append(("raised", "selection raised %r" % (ex,), rep))
+    # analyses restricted to a distance range / area are queries: afterwards the table still tabulates the same frames, and the frames the
+    # analyzer holds still have the pass/fail lists they were tabulated from
+    def frame_sizes():
+        return [(len(f.pass_fail_result.tp_object_results), len(f.pass_fail_result.fp_object_results), len(f.pass_fail_result.tn_objects),
+                 len(f.pass_fail_result.fn_objects), len(f.frame_ground_truth.objects), len(f.object_results)) for v in an.frame_results.values() for f in v]
+
+    try:
+        sizes0 = frame_sizes()
+        for rng_ in ((0.0, 1.6), (1.2, 2.7), (0.5, 50.0)):
+            try:
+                an.analyze(distance=rng_)
+                an.summarize_score(distance=rng_)
+            except Exception as ex:
+                mism.append(("raised", "analyze(distance=%s) raised %r" % (rng_, ex), rep))
+        got2 = dict(numEst=an.num_estimation, tp=an.num_tp, fp=an.num_fp, tn=an.num_tn, fn=an.num_fn, numGt=an.num_ground_truth)
+        if got2 != got:
+            mism.append(("restricted-analysis-changed-table", "counts %s before, %s after analyze(distance=...)" % (got, got2), rep))
+        if frame_sizes() != sizes0:
+            mism.append(("restricted-analysis-changed-frames", "pass/fail list sizes per frame %s before, %s after analyze(distance=...)" % (sizes0, frame_sizes()), rep))
+        want_sizes = [(len(r["tp"]), len(r["fp"]), len(r["tn"]), len(r["fn"])) for _ in range(S) for r in frs]
+        if [z[:4] for z in frame_sizes()] != want_sizes:
+            mism.append(("analyzer-frames-differ-from-table", "frames held by the analyzer have TP/FP/TN/FN sizes %s, specification %s" % ([z[:4] for z in frame_sizes()], want_sizes), rep))
+        an_b = PerceptionAnalyzer3D(mgr.evaluator_config)
+        for v in an.frame_results.values():
+            an_b.add(v)
+        if (an_b.num_tp, an_b.num_fp, an_b.num_tn, an_b.num_fn) != (got["tp"], got["fp"], got["tn"], got["fn"]):
+            mism.append(("restricted-analysis-changed-frames", "re-tabulating the analyzer's frames gives different counts", rep))
+    except Exception as ex:
+        mism.append(("raised", "restricted analysis raised %r" % (ex,), rep))
     # per-object status tallies: each critical ground truth once per frame
     st = get_object_status(frame_results)
     per = {}
